@@ -1,4 +1,5 @@
 import SuitVerif.Update
+import SuitVerif.IHexText
 /-! # C16 — update-candidate info and DFU partition images describe the envelope file -/
 namespace SuitVerif.Props.C16
 open SuitVerif SuitVerif.Update SuitVerif.IHex
@@ -96,6 +97,44 @@ theorem C16_dfu_checks (dfuAddr : Nat) (env : Bytes) (img : Image) (h : dfuImage
     · subst he; simp [checkDfu, place, canon_single_empty]
     · simp [checkDfu, place, canon_single _ _ he]
 
+/-! ### file level: the text of the hex files (writer model `IHex.writeText` of the third-party `intelhex` writer, `IHexWrite.lean`)
+
+The statements above are about the memory image a file denotes; these two carry them to the characters of the file: the strict reader, on
+the text the writer model produces for the image, gives back exactly the image - so `checkStorage` / `checkDfu` hold of what is read from the
+file (for every address and size the model accepts). -/
+
+/-- the DFU partition file, as text, reads back as exactly the envelope file's bytes at the partition address -/
+theorem C16_dfu_file (dfuAddr : Nat) (env : Bytes) (img : Image) (h : dfuImage dfuAddr env = .ok img) :
+    ∃ img', IHex.read (IHex.writeText dfuAddr env) = some img' ∧ checkDfu img' dfuAddr env = true := by
+  have hc := C16_dfu_checks dfuAddr env img h
+  unfold dfuImage at h
+  split at h
+  · cases h
+  · rename_i hb
+    simp only [Except.ok.injEq] at h
+    refine ⟨_, IHex.read_writeText dfuAddr env (by omega), ?_⟩
+    by_cases he : env = []
+    · subst he; simp [checkDfu, canon]
+      simp [sortSegs, mergeSorted]
+    · simp [checkDfu, he, canon_single _ _ he]
+
+/-- the storage file, as text, reads back as exactly the update-candidate record at its address -/
+theorem C16_storage_file (uciAddr dfuAddr size caches : Nat) (img : Image)
+    (h : storageImage uciAddr dfuAddr size caches = .ok img) :
+    ∃ r, candidateInfo dfuAddr size caches = .ok r ∧ IHex.read (IHex.writeText uciAddr r) = some img
+      ∧ checkStorage img uciAddr dfuAddr size caches = true := by
+  have hc := C16_storage_checks uciAddr dfuAddr size caches img h
+  obtain ⟨r, hr, himg, hb⟩ := C16_storage_image uciAddr dfuAddr size caches img h
+  obtain ⟨h1, _⟩ := C16_record dfuAddr size caches r hr
+  have hne : r ≠ [] := by intro h0; rw [h0] at h1; simp at h1; omega
+  refine ⟨r, hr, ?_, hc⟩
+  rw [IHex.read_writeText uciAddr r hb, himg]
+  simp [hne]
+
 example : (candidateInfo 0x0E100000 1234 2).toOption.map List.length = some 32 := by decide
+
+/-- a concrete file: 18 bytes across a 64 KiB border - the text of the file (kernel evaluation of the writer model) -/
+example : IHex.writeText 65530 ((List.range 18).map UInt8.ofNat) =
+    ":020000040000FA\n:06FFFA00000102030405F2\n:020000040001F9\n:0C000000060708090A0B0C0D0E0F10116A\n:00000001FF\n" := by decide +kernel
 
 end SuitVerif.Props.C16
